@@ -3,14 +3,17 @@
   Session part: heap model `PydapModel/Proxy.lean` (every GET logged with the session of the
   object that issued it).  Cache part: `PydapModel/CacheKey.lean`, the model of
   `patch_session_for_shared_dap_cache` (after the repair d871e84).
-  Runtime behaviour outside the model: requests/requests_cache themselves (adapter dispatch,
-  expiry, storage), i.e. "with a caching session every read returns the same data" is checked
-  by the harness oracle only.
+  Caching session: `PydapModel/Cache.lean`, what `requests_cache.CachedSession.send` does with
+  `create_key` (look up, on a miss forward and store); "with a caching session every read returns
+  the same data as with a plain session" is `C18_cache_transparent_*`, for all histories.
+  Outside the model: adapter dispatch, expiry, status/method filters, serialisation of the store.
 -/
 import PydapModel.Proxy
 import PydapModel.CacheKey
 import Proofs.Proxy
 import Proofs.CacheKey
+import PydapModel.Cache
+import Proofs.Cache
 namespace Pydap.C18
 open Pydap Pydap.Proxy
 
@@ -18,7 +21,7 @@ open Pydap Pydap.Proxy
 theorem C18_open_session (b : Name) (bs : List Name) (σ : Sess) (n : Name) (keys : List Name)
     (arrays : List (Name × List Nat × Bool)) : SessInv σ (openHeap b bs σ n keys arrays) := by
   refine ⟨?_, by simp [openHeap]⟩
-  intro o ho
+  intro o ho _
   simp only [openHeap, List.mem_append, List.mem_cons, List.mem_map, List.not_mem_nil, or_false] at ho
   rcases ho with (ho | ⟨a, _, ha⟩) | ho
   · subst ho; rfl
@@ -26,11 +29,11 @@ theorem C18_open_session (b : Name) (bs : List Name) (σ : Sess) (n : Name) (key
   · subst ho; rfl
 
 /-- **Session invariant, any history**: every GET logged by any history of derivations, copies,
-    reads, array reads and server-function calls, on any objects, carries the session the
+    reads, array reads, variable and grid reads (array and maps) and server-function calls, on any objects, carries the session the
     objects were created with — including the GETs of derived sequences, of DAP4 variables and of
     server-function results; never `none` (a fresh anonymous session). -/
 theorem C18_session (σ : Sess) (h : Heap) (i : SessInv σ h) (evs : List Ev) :
-    (∀ e ∈ (run h evs).log, e.1 = σ) ∧ (∀ o ∈ (run h evs).objs, objSess o = σ) :=
+    (∀ e ∈ (run h evs).log, e.1 = σ) ∧ (∀ o ∈ (run h evs).objs, carries o = true → objSess o = σ) :=
   ⟨(run_sessInv σ h i evs).2, (run_sessInv σ h i evs).1⟩
 
 /-- the two together, from `open_url` -/
@@ -88,6 +91,82 @@ theorem C18_cache_key_prefix_refuted :
           (r1.host = earthdataHost ∧ r2.host = earthdataHost)) :=
   cacheKey_collide_prefix_refuted
 
+/-! ### caching never changes results -/
+open Pydap.Cache
+
+/-- the empty store satisfies the cache invariant -/
+theorem C18_cache_inv_empty {α κ ρ : Type} (key : α → κ) (server : α → ρ) (adm : α → Prop) :
+    CacheInv key server adm ([] : Store κ ρ) :=
+  cacheInv_nil key server adm
+
+/-- **Unpatched keys: the cache is transparent.**  If the key function is injective on the requests
+    of the history (equal keys ⇒ same request: the assumption on the unpatched `create_key` of
+    `C18_cache_key`), then for every history the reads through the caching session, starting from the
+    empty store, are exactly the reads of a plain session.  `server` is any function of the request. -/
+theorem C18_cache_transparent_url {α κ ρ : Type} [DecidableEq κ] (key : α → κ) (server : α → ρ) (urls : List α)
+    (hinj : ∀ u1 ∈ urls, ∀ u2 ∈ urls, key u1 = key u2 → u1 = u2) :
+    (runCached key server [] urls).1 = runPlain server urls :=
+  (runCached_transparent (adm := (· ∈ urls)) (fun u1 u2 h1 h2 hk => by rw [hinj u1 h1 u2 h2 hk]) urls []
+    (cacheInv_nil _ _ _) (fun _ h => h)).1
+
+/-- **Consolidated keys, general form.**  Requests `α` with an identity `ident` (what the unpatched key
+    sees), a relation `Shared` (the pairs consolidation lets share an entry), admissible requests `adm`.
+    (a) `hkey`: equal keys ⇒ same identity or `Shared` — what `C18_cache_key` proves of `customKey`;
+    (b) `hshared`, **EXPLICIT ASSUMPTION ABOUT THE DATA, not about pydap**: the server answers `Shared`
+        requests identically (the shared dimensions are the same in every file under the base) — the premise
+        under which metadata consolidation is sound at all; `C18_cache_consolidated_needs_shared_equal`
+        shows it cannot be dropped;
+    (c) `hfun`: the server is a function of the request identity (on the admissible requests).
+    Then from any store satisfying the invariant (`C18_cache_inv_empty`: the empty one does), every read of
+    every admissible history through the cache equals the read without it, and the invariant is kept. -/
+theorem C18_cache_transparent_consolidated {α κ ι ρ : Type} [DecidableEq κ] (key : α → κ) (ident : α → ι)
+    (Shared : α → α → Prop) (server : α → ρ) (adm : α → Prop)
+    (hkey : ∀ u1 u2, adm u1 → adm u2 → key u1 = key u2 → ident u1 = ident u2 ∨ Shared u1 u2)
+    (hshared : ∀ u1 u2, adm u1 → adm u2 → Shared u1 u2 → server u1 = server u2)
+    (hfun : ∀ u1 u2, adm u1 → adm u2 → ident u1 = ident u2 → server u1 = server u2)
+    (cache : Store κ ρ) (hinv : CacheInv key server adm cache) (urls : List α) (hadm : ∀ u ∈ urls, adm u) :
+    (runCached key server cache urls).1 = runPlain server urls ∧
+      CacheInv key server adm (runCached key server cache urls).2 :=
+  runCached_transparent
+    (fun u1 u2 h1 h2 hk => (hkey u1 u2 h1 h2 hk).elim (hfun u1 u2 h1 h2) (hshared u1 u2 h1 h2)) urls cache hinv hadm
+
+/-- **Consolidated keys, the real key function.**  `customKey` is the model of the closure installed by
+    `patch_session_for_shared_dap_cache`; hypothesis (a) is discharged by `C18_cache_key`.  What remains:
+    `horig` (the unpatched `create_key` is injective on request identities), `hfun` (the server is a function
+    of the request identity, on the requests of the history) and the explicit assumption (b) `hshared`, needed only for pairs of requests *of
+    the history*: two shared-dimension requests (same declared constraint, scheme and host, both under the
+    declared base or in one Earthdata collection) get the same answer.  Then every read of every history through
+    the caching session with consolidated keys equals the read through a plain session. -/
+theorem C18_cache_transparent_customKey {ρ : Type} (orig : List Char → List Char)
+    (horig : ∀ a b, orig a = orig b → a = b) (shared : List (List Char)) (base : Option Base)
+    (server : CK.Req → ρ) (urls : List CK.Req)
+    (hfun : ∀ r1 ∈ urls, ∀ r2 ∈ urls, r1.url = r2.url → server r1 = server r2)
+    (hshared : ∀ r1 ∈ urls, ∀ r2 ∈ urls, SharedDim shared base r1 r2 → server r1 = server r2) :
+    (runCached (customKey orig shared base) server [] urls).1 = runPlain server urls :=
+  (C18_cache_transparent_consolidated (customKey orig shared base) (·.url) (SharedDim shared base) server (· ∈ urls)
+    (fun r1 r2 _ _ hk => C18_cache_key orig horig shared base r1 r2 hk)
+    (fun r1 r2 h1 h2 hs => hshared r1 h1 r2 h2 hs) (fun r1 r2 h1 h2 e => hfun r1 h1 r2 h2 e) [] (C18_cache_inv_empty _ _ _) urls (fun _ h => h)).1
+
+/-- Assumption (b) is necessary: two files under the base whose answers to the same shared-dimension
+    constraint differ (the server echoes the URL) — the second read through the consolidated cache returns the
+    first file's answer. -/
+theorem C18_cache_consolidated_needs_shared_equal :
+    ¬ (∀ (server : CK.Req → List Char) (urls : List CK.Req),
+        (∀ r1 r2 : CK.Req, r1.url = r2.url → server r1 = server r2) →
+        (runCached (customKey id [exCe] (some exBase)) server [] urls).1 = runPlain server urls) := by
+  intro h
+  have := h (·.url) [exInside, exReq "data.example.org" "/data/set/sub/b.nc.dap"] (fun _ _ e => e)
+  revert this
+  decide
+
+/-- the trace the harness compares (hit flag, response) carries exactly the responses of `runCached`, one per
+    read; only requests of the history reach the server -/
+theorem C18_cache_trace {α κ ρ : Type} [DecidableEq κ] (key : α → κ) (server : α → ρ) (cache : Store κ ρ)
+    (urls : List α) :
+    (runTrace key server cache urls).map (·.2) = (runCached key server cache urls).1 ∧
+      (runTrace key server cache urls).length = urls.length ∧ (wire key server cache urls).Sublist urls :=
+  ⟨runTrace_resp key server urls cache, runTrace_length key server urls cache, wire_sublist key server urls cache⟩
+
 /-! ### non-vacuity -/
 example : SessInv (some 3) (openHeap ['u'] [] (some 3) ['s'] [['i']] [(['a'], [2], true)]) :=
   C18_open_session _ _ _ _ _ _
@@ -95,5 +174,38 @@ example : (run (openHeap ['u'] [] (some 3) ['s'] [['i']] [(['a'], [2], true)])
     [.aget 1 [Idx.int 0], .fattr 2 ['m'], .fcall 3 ['a'], .rget 4 false, .rget 4 true, .rget 4 true]).log.map (·.1)
     = [some 3, some 3, some 3, some 3] := by decide
 example : underBase (some exBase) exInside = true ∧ underBase (some exBase) exSibling = false := by decide
+
+/-- a history with consolidated hits (second read: another file under the base; fourth: a repeat) and a
+    sibling directory that is not shared; the server answers the shared constraint identically under the base -/
+example :
+    (runTrace (customKey id [exCe] (some exBase)) (fun r => if underBase (some exBase) r then exCe else r.url) []
+      [exInside, exReq "data.example.org" "/data/set/sub/b.nc.dap", exSibling, exInside]).map (·.1)
+      = [false, true, false, true] ∧
+    wire (customKey id [exCe] (some exBase)) (fun r => if underBase (some exBase) r then exCe else r.url) []
+      [exInside, exReq "data.example.org" "/data/set/sub/b.nc.dap", exSibling, exInside] = [exInside, exSibling] := by
+  decide
+/-- the hypotheses of `C18_cache_transparent_customKey` hold on that history -/
+example : (runCached (customKey id [exCe] (some exBase))
+      (fun r => if underBase (some exBase) r ∧ r.ce = some exCe then exCe else r.url) []
+      [exInside, exReq "data.example.org" "/data/set/sub/b.nc.dap", exSibling, exInside]).1
+    = runPlain (fun r => if underBase (some exBase) r ∧ r.ce = some exCe then exCe else r.url)
+      [exInside, exReq "data.example.org" "/data/set/sub/b.nc.dap", exSibling, exInside] := by
+  refine C18_cache_transparent_customKey id (fun _ _ h => h) [exCe] (some exBase) _ _ ?_ ?_
+  · decide
+  · intro r1 h1 r2 h2 hs
+    obtain ⟨_, c, _, _, _, _, hh⟩ := hs
+    simp only [List.mem_cons, List.not_mem_nil, or_false] at h1 h2
+    rcases h1 with rfl | rfl | rfl | rfl <;> rcases h2 with rfl | rfl | rfl | rfl <;>
+      first
+        | decide
+        | (rcases hh with ⟨ha, hb⟩ | ⟨ha, _⟩
+           · first | (revert ha; decide) | (revert hb; decide)
+           · revert ha; decide)
+/-- unpatched keys: a repeated URL is a hit, and the reads are the plain ones -/
+example : (runTrace (fun u : Nat => u) (fun u => 10 * u) [] [1, 2, 1]) = [(false, 10), (false, 20), (true, 10)] ∧
+    (runCached (fun u : Nat => u) (fun u => 10 * u) [] [1, 2, 1]).1 = runPlain (fun u => 10 * u) [1, 2, 1] :=
+  ⟨by decide, C18_cache_transparent_url _ _ _ (fun _ _ _ _ h => h)⟩
+/-- a non-injective key does change results (why the hypothesis is there) -/
+example : (runCached (fun _ : Nat => 0) (fun u => 10 * u) [] [1, 2]).1 ≠ runPlain (fun u => 10 * u) [1, 2] := by decide
 
 end Pydap.C18
